@@ -557,8 +557,12 @@ func (e *FunctionCallExpr) executeFuncBatch(funcObj *Function, chunk []KVPair, c
 		ret = make([]any, len(chunk))
 		err error
 	)
+	// No vector form: evaluate pair by pair with the row function. As for the
+	// vector forms of join and the list functions no context is passed: the
+	// per-pair field cache of ctx would keep the first pair's alias values for
+	// the whole chunk.
 	for i := 0; i < len(chunk); i++ {
-		ret[i], err = funcObj.Body(chunk[i], e.Args, ctx)
+		ret[i], err = funcObj.Body(chunk[i], e.Args, nil)
 		if err != nil {
 			return nil, err
 		}
